@@ -23,7 +23,7 @@ RULES = [  # first match wins: (regex on subject, property)
     (r"option|argument-list|counter|lone|argv|pre-parse|REQUIRE\(argc|--args", "C08"),
     (r"spifmem", "C15"),
     (r"silent|debug statements", "C20"),
-    (r"built-in function|builtin_exec|builtin_dirscan", "C11"),
+    (r"built-in function|builtin_exec|builtin_dirscan|working directory", "C11"),
     (r"shell_expand|put_var|expan", "C10"),
     (r"conf|context|include|fstate|parse_line|find_file|temp", "C09"),
 ]
